@@ -563,7 +563,7 @@ def replay_rx_step(h, w, rx):
     _SC_DLCI_MAX never have one), then the octet is fed.  When the stream is one a transmitter can produce the frame is completed, and in
     every case FOUR more good frames follow.  Judged at statement level: deliveries == spec.hdlc_wire.ideal_receive(stream) restricted to the
     DLCIs that have a handler (a frame nobody listens to costs nothing), the over-long rules, and after anything the statement does not
-    speak about (malformed stream) at most one of the following frames may be lost; memory safety always.
+    speak about (malformed stream) at most two of the following frames may be lost; memory safety always.
     -> replay result, or None when the state cannot be reached through the interface (representation invariant violated by the model)."""
     st, ch, k = w.get("state"), w.get("ch"), w.get("stored", 0) or 0
     d, ctl, hnd = w.get("dlci", 5), w.get("ctrl", W.CTRL_UI), w.get("handler", 1)
@@ -623,10 +623,12 @@ def replay_rx_step(h, w, rx):
     listened = lambda x: x[0] < NDLCI and x[0] != 128 and x[0] not in unregistered
     if not bad:
         if wellformed:
-            exp = [x for x in W.ideal_receive(stream2) if listened(x)]        # delivered to the handler REGISTERED for its DLCI
-            if any(x[0] == 128 for x in W.ideal_receive(stream2)):
+            every = W.ideal_receive(stream2)
+            exp = [x for x in every if listened(x)]        # delivered to the handler REGISTERED for its DLCI
+            if any(x[0] == 128 for x in every):
                 exp = None
-            long_ = [x for x in (exp or []) if len(x[1]) >= rx]
+            # an over-long frame costs the frame that follows it whether or not anybody listens to its DLCI
+            long_ = [x for x in every if len(x[1]) >= rx]
             if exp is None:
                 pass
             elif not long_:
@@ -639,10 +641,13 @@ def replay_rx_step(h, w, rx):
                 if miss:
                     bad.append("%d of the frames after the one following the over-long frame not delivered" % len(miss))
         else:
-            # a stream no transmitter produces: the statement is silent about the frame it hits, but reception must come back
-            miss = [p for p in probes[1:] if p not in got]
+            # a stream no transmitter produces: the statement is silent about the frames it hits, but reception must come back.  An unfinished
+            # frame is ended by the next frame's opening flag, that frame's body is skipped and its closing flag is taken for an opening one, so
+            # the frame after it is understood one field late: up to TWO good frames are lost on the unchanged receiver (tools/replay_audit.py
+            # found the stricter "last three" rule confirming on the unchanged tree) - the last two must arrive
+            miss = [p for p in probes[2:] if p not in got]
             if miss:
-                bad.append("after the malformed input %d of the last three good frames are not delivered (first missing: dlci %d)" % (len(miss), miss[0][0]))
+                bad.append("after the malformed input %d of the last two good frames are not delivered (first missing: dlci %d)" % (len(miss), miss[0][0]))
     return {"confirmed": bool(bad), "found_by": "model (receiver driven into exactly the counter-model's state through its own input)", "observed": bad or "behaves as the statement prescribes",
             "precondition_met_by_model_input": True,
             "deliveries_observed": [(a, hexs(b[:12]), len(b)) for a, b in got[:6]], "executed": info,
